@@ -192,6 +192,10 @@ def history_cmds(c):
     elif h == "conv_into_saved":      # B held the data and was saved with a format before, then receives A
         cmds = o.cmds(0) + ["format 0 %s" % stale, "save 0 earlier.npd"] + o.cmds(2) + ["format 2 %s" % stale, "format 2 -",
                                                                                          "convert 2 0 %d" % t]
+    elif h == "untyped_save_convert":  # untyped format, saved, then the type changed in place: the format stays untyped (DA90)
+        cmds = c["obj0"].cmds(0) + ["format 0 %s" % c["format"], "save 0 first.npd", "convert 0 0 %d" % t]
+    elif h == "cksave_first":         # vnadata_cksave is a check: format and file type as set afterwards (DA90)
+        cmds = o.cmds(0) + ["format 0 %s" % c["format"], "filetype 0 %d" % D.FT_TS1, "cksave 0 x.ts"]
     else:                             # saved_before: the object itself was saved with another format earlier
         cmds = o.cmds(0) + ["format 0 %s" % stale, "save 0 earlier.npd", "format 0 -"]
     return cmds + ["dump 0"]
@@ -201,7 +205,7 @@ def case_cmds(c):
     cmds = history_cmds(c) if c.get("history") else c["obj"].cmds(0)
     if c["setft"] is not None:
         cmds.append("filetype 0 %d" % c["setft"])
-    if c["format"] is not None:
+    if c["format"] is not None and not c.get("keep_format"):
         cmds.append("format 0 %s" % c["format"])
     cmds.append("fprec 0 %d" % c["fprec"])
     cmds.append("dprec 0 %d" % c["dprec"])
@@ -323,15 +327,26 @@ def evaluate(ctx, c, lines, stats):
             stats["setter_refused"] += 1          # the stale format is not one vnadata_set_format takes: no history
             return None
         before = D.parse_dump(pre[-1])
+        if before is not None and c["history"] == "untyped_save_convert" and \
+                (before.type, before.rows, before.cols, len(before.freqs)) == (o.type, o.rows, o.cols, len(o.freqs)):
+            # the data are what the library's in-place conversion produced: they are the object that is saved
+            before.meta0 = before.meta
+            c = dict(c)
+            c["obj"] = o = before
         if before is None or not D.obj_equal(before, o):
             return ({"kind": "history", "class": "object", "history": c["history"]},
                     "history %s: the object to be saved is not the one that was built (type %s %dx%d)"
                     % (c["history"], o.type, o.rows, o.cols))
-        if before.meta["format"] != "-":
+        want_fmt = c.get("hist_format", "-")
+        if before.meta["format"] != want_fmt:
             # reported only when the file itself shows nothing (the written forms are judged first, below)
             c["_stale"] = ({"kind": "history", "class": "stale_format", "history": c["history"]},
-                    "history %s (format %s set, then cleared with vnadata_set_format(NULL)): the object to be saved reports the "
-                    "format %r, it has none" % (c["history"], c["stale"], before.meta["format"]))
+                    "history %s (format %s): the object to be saved reports the format %r, the format in force is %r"
+                    % (c["history"], c.get("stale") or c["format"], before.meta["format"], want_fmt))
+        elif c.get("hist_filetype") is not None and before.meta["filetype"] != c["hist_filetype"]:
+            c["_stale"] = ({"kind": "history", "class": "filetype_changed_by_check", "history": c["history"]},
+                    "history %s: vnadata_get_filetype reports %d after vnadata_cksave, %d was set"
+                    % (c["history"], before.meta["filetype"], c["hist_filetype"]))
     it = iter(lines)
     got = {}
     for ln in lines:
@@ -394,6 +409,13 @@ def evaluate(ctx, c, lines, stats):
     if ldrc == 0 and nerr != 0:
         return ({"kind": "load_reports_error_but_succeeds", "filetype": ft},
                 "vnadata_fload returned 0 after reporting an error: %s" % (ld[1] if len(ld) > 1 else ""))
+    if ldrc != 0 and ft != "NPD" and not freqs_ascending_as_written(o.freqs, fp):
+        # known finding DA91: the saver writes them, the Touchstone loader insists on strictly ascending, non-negative frequencies
+        return ({"kind": "saver_accepts_loader_rejects", "filetype": "touchstone",
+                 "class": "frequencies not strictly ascending at fprecision"},
+                "vnadata_fsave wrote the %s file (rc 0), vnadata_fload refuses it: the frequencies %s are not strictly ascending "
+                "and non-negative as written at fprecision %d (%s): %s"
+                % (ft, [float(x).hex() for x in o.freqs], fp, freq_texts(o.freqs, fp), ld[1] if len(ld) > 1 else ""))
     if ldrc != 0:
         only_scalar = all(form in NPD_SCALAR for _, form in ents)
         return ({"kind": "saver_accepts_loader_rejects", "filetype": ft, "only_scalar_forms": only_scalar,
@@ -406,6 +428,37 @@ def evaluate(ctx, c, lines, stats):
         return ({"kind": "load_result", "class": e.cls, "filetype": ft}, "%s %s (type %s %dx%d z0 %s, format %s, precisions %d/%d): %s"
                 % (ft, c["name"], o.type, o.rows, o.cols, c["zmode"], c["format"], fp, p, e))
     return c.get("_stale")
+
+
+def freq_texts(freqs, fp):
+    return [f.hex() if fp == MAXP else "%.*e" % (max(fp, 1) - 1, f) for f in freqs]
+
+
+def freqs_ascending_as_written(freqs, fp):
+    vals = [float.fromhex(t) if fp == MAXP else float(t) for t in freq_texts(freqs, fp)]
+    return all(v >= 0 for v in vals) and all(a < b for a, b in zip(vals, vals[1:]))
+
+
+def gen_freq_case(rng, k):
+    """Frequencies that do not read back strictly ascending: equal at fprecision, descending, negative (DA91)."""
+    c = gen_case(rng, 400 + k, "quick")
+    o = c["obj"]
+    c["id"] = "f%d" % k
+    kind = ["collapse", "descending", "negative"][k % 3]
+    n = len(o.freqs)
+    if n < 2:
+        kind = "negative"
+    if kind == "collapse":
+        if c["fprec"] == MAXP or c["fprec"] > 7:
+            c["fprec"] = rng.randint(1, 7)
+        base = rng.choice([1.0, 2.5, 9.75]) * 10.0 ** rng.randint(3, 10)
+        o.freqs = [base * (1 + 1e-9 * i) for i in range(n)]
+    elif kind == "descending":
+        o.freqs = sorted(o.freqs, reverse=True)
+    else:
+        o.freqs = sorted([-abs(o.freqs[0])] + list(o.freqs[1:]))
+    c["freq_kind"] = kind
+    return c
 
 
 def check_freq(tok, parsed, f, fp):
@@ -642,6 +695,10 @@ def run(ctx):
         "(ptext_word, atext_word, ptext_field, atext_field), strtol reads %d back (itext_int, itext_field), sign kept (rd_sign), a printed "
         "number holds no NUL and does not begin with '#' (ptext_cstr, ptext_nohash), rd = identity at MAX / >= 17 digits (num_rt)",
         "independent reader and conversion oracle lib/datafiles.py (Python, from the format descriptions / port relations)",
+        "glibc printf / strtod / strtol (the number-text Section hypotheses state what they guarantee; num_rt is the only rounding hypothesis)",
+        "conv_keeps_length / conv_shape: vnadata_convert returns a matrix of the same size / one Zin per port (premises, not proved)",
+        "the Python tokenizers c_tokens / model_tokens of checks/c06_ties.py (they replace TsTok.tokens / NpdLoad.npd_lines in the byte tie)",
+        "NumFmtModel.print_value / eng_value are NOT linked to ptext_word: v_ptext is abstract, parse_decimal is not parse_double",
         "gcc, ASan/UBSan/LSan, allocation interposer harness/allocwrap.c",
     ]
     ctx.assumptions = ["glibc printf/strtod are correctly rounded (exercised, not proved)",
@@ -651,6 +708,7 @@ def run(ctx):
     ok, res = ctx.coq_obligations(["Files/NumFmtModel.v", "Files/NumFmtProofs.v", "Files/NpdScan.v", "Files/NpdScanProofs.v",
                                    "Files/SaveModel.v", "Files/SaveProofs.v", "Files/SaveEmit.v", "Files/SaveEmitTie.v",
                                    "Files/SaveTsLemmas.v", "Files/SaveEmitProofs.v", "Files/SaveNpdProofs.v", "Files/SaveAllProofs.v", "Files/SaveNormIdentity.v",
+                                   "Files/SaveState.v", "Files/SaveStateProofs.v", "Files/SaveBoundary.v",
                                    "Files/SaveEmitExamples.v", "Properties_C06.v"])
     broken = []
     if not ok:
@@ -659,7 +717,8 @@ def run(ctx):
     n = 700 if ctx.tier == "quick" else 6000
     cases = [gen_case(ctx.rng, k, ctx.tier) for k in range(n)]
     cases += directed_cases()
-    cases += [gen_history_case(ctx.rng, k) for k in range(48 if ctx.tier == "quick" else 400)]
+    cases += [gen_history_case(ctx.rng, k) for k in range(56 if ctx.tier == "quick" else 420)]
+    cases += [gen_freq_case(ctx.rng, k) for k in range(30 if ctx.tier == "quick" else 240)]
     stats = {"accepted": 0, "refused": 0, "setter_refused": 0, "by_kind": {}}
     results, faults = H.run([(c["id"], case_cmds(c)) for c in cases], timeout=1500)
     byid = dict((c["id"], c) for c in cases)
@@ -702,7 +761,7 @@ def run(ctx):
     if stats["accepted"] < n // 4:
         ctx.obligation("tie:coverage", False, "only %d of %d configurations were accepted by the saver" % (stats["accepted"], n))
     # ---- ties of the Coq models
-    c06_ties.run(ctx, H, broken, [c for c in cases if not c.get("history")], results, expected_filetype)
+    c06_ties.run(ctx, H, broken, [c for c in cases if not c.get("history") and not c.get("freq_kind")], results, expected_filetype)
     for b in broken:
         ctx.unproved("C06", b, "round-trip search over %d configurations" % n)
 
@@ -720,6 +779,7 @@ def gen_history_case(rng, k):
     o = c["obj"]
     c["id"] = "h%d" % k
     c["history"] = ["conv_copy", "conv_chain", "conv_into_loaded", "conv_into_saved", "saved_before"][k % 5]
+    c["stale"] = None
     if o.type == "ZIN":
         c["stale"] = rng.choice(["Zinma", "PRC,Zinri", "SRL"])
     else:
@@ -727,6 +787,24 @@ def gen_history_case(rng, k):
     if rng.random() < 0.7:
         c["format"] = None            # saved without a format of its own: the default form of its own type
     c["save_first"] = rng.random() < 0.5
+    kinds7 = k % 7
+    if kinds7 in (5, 6) and o.type != "ZIN":
+        # DA90: a save / a check must not change what later saves write
+        c["format"] = rng.choice(["ma", "ri"])
+        c["hist_format"] = c["format"]
+        c["stale"] = None
+        if kinds7 == 5:
+            others = [t for t in (["S", "Z", "Y", "T", "H", "A"] if o.ports == 2 else ["S", "Z", "Y"]) if t != o.type]
+            t0 = rng.choice(others)
+            c["history"] = "untyped_save_convert"
+            c["keep_format"] = True
+            c["obj0"] = D.Obj(t0, o.rows, o.cols, o.freqs, [D.convert(m, o.type, t0, o.z0_at(i)) for i, m in enumerate(o.data)],
+                              z0=o.z0, fz0=o.fz0)
+            c["scaled"] = False
+        else:
+            c["history"] = "cksave_first"
+            c["hist_filetype"] = D.FT_TS1
+            c["setft"] = D.FT_TS1
     return c
 
 
